@@ -52,7 +52,7 @@ class Wal:
                 self.eval_context.global_environment.define(name, val)
 
         res = None
-        if sexpr:
+        if sexpr is not None:
             try:
                 expanded = expand(self.eval_context, sexpr, parent=self.eval_context.global_environment)
                 optimized = optimize(expanded)
